@@ -1120,6 +1120,9 @@ func (e *Eng) indexVal(base, idx Val, c *ctx, n ast.Node, commaOk bool) Val {
 		if base.GVal == "(_ BitVec 8)" {
 			return Val{K: KInt, T: "(select " + base.T + " " + kt + ")", GoT: types.Typ[types.Uint8]}
 		}
+		if base.GVal == "(_ BitVec 64)" {
+			return Val{K: KInt, T: "(select " + base.T + " " + kt + ")", GoT: types.Typ[types.Int]}
+		}
 		switch k {
 		case KBool:
 			gt = types.Typ[types.Bool]
